@@ -111,7 +111,10 @@ def run(ctx):
     ok1 = any(l[0] == 'is' and l[2] == frozenset(['Indeterminate']) and is_call(l[1], 'AffTree::phase_inh') for l in l1)
     def alts(e):
         return e[2] if e[0] == 'phi' else (e,)
-    ok2 = any(l[0] == 'is' and l[2] == frozenset(['Indeterminate']) and sorted(a[1] for a in alts(l[1]) if a[0] == 'call') == ['AffTree::phase_inh', 'AffTree::phase_one'] for l in l2)
+    # one test of the running state (phi of both earlier results) or one test per earlier phase (early returns): both earlier phases left Indeterminate
+    ind2 = [l for l in l2 if l[0] == 'is' and l[2] == frozenset(['Indeterminate'])]
+    ok2 = any(sorted(a[1] for a in alts(l[1]) if a[0] == 'call') == ['AffTree::phase_inh', 'AffTree::phase_one'] for l in ind2) or \
+        ({'AffTree::phase_inh', 'AffTree::phase_one'} <= {l[1][1] for l in ind2 if l[1][0] == 'call'})
     dom = cfg.dominates(inh[0], ph1[0]) and cfg.dominates(inh[0], ph2[0])
     if ok1 and ok2 and dom:
         ctx.ok('C06.R1', Q + '#phase-order', 'phase_one runs iff phase_inh left Indeterminate; phase_two iff both did', ph2[1]['span'])
@@ -234,7 +237,7 @@ def run(ctx):
         lits = literals(b, R, fb)
         wl = literals(b, R, wbb)
         own = [l for l in lits if (l[0], s(l[1])) not in [(x[0], s(x[1])) for x in wl]]
-        nrem = own and len(own) == 1 and any(op_ == 'Eq' and y_ == ('const', 0) and x_[0] == 'field' and x_[2] == '2' and is_call(x_[1], 'DfsNodeData::extract')
+        nrem = own and len(own) == 1 and any(op_ == 'Eq' and y_ == ('const', 0) and prune.dfs_component(x_) and prune.dfs_component(x_)[1] == 'n_remaining'
                                              for op_, x_, y_ in prune.cmp_facts(own))
         parent = fa[1][0] == 'field' and fa[1][2] == 'source_idx' and is_call(fa[1][1], 'Tree::parent') and s(fa[1][1][2][1]) == s(node)
         after = cfg.dominates(wbb, fb)
